@@ -17,6 +17,14 @@ CHECKS = {
          "Every string of up to 7 (quick) / 8 (thorough) tokens over {a 1 : @ [ ] . %41 v (e-acute)} accepted by the reference authority DFA (this contains every IPv6/IPvFuture shape of that length combined with every user-info/port shape) plus the product of named user-info, host and port values, each stand-alone and embedded in three kinds of reference. Exhaustive inside the bound.",
          "Trusted: the 30-line authority splitting model and the reference DFAs. Hosts longer than the token bound are represented by the named product only.",
          "DESIGN.md section 6, C03"),
+ "C09": ("exhaustive input-space sweep of all paths up to a segment bound (+ inline-buffer threshold paths), stand-alone and embedded in every kind of reference, against a stack-walk model cross-checked with a literal RFC 3986 5.2.4 transcription",
+         "Every path over the structural segment alphabet up to 6 (quick) / 8 (thorough) segments and over the full alphabet up to 4/5, plus paths of 15..40 segments and 510..2000 bytes; for each: the normalized-segment iterator (both directions, length), the normalized copy (RFC rendering incl. trailing slash, idempotence), in-place normalisation stand-alone, and embedded in 12 reference contexts with frame check (scheme, authority, query, fragment unchanged, text valid). Exhaustive inside the bound.",
+         "Trusted: the stack-walk model (30 lines) and its agreement with the literal 5.2.4 algorithm on absolute paths (checked on 5460 paths by selftest); rendering rules of DESIGN 5.3 (legal '.' shield, [\"\"] identified with the empty list unless shielded).",
+         "DESIGN.md section 6, C09"),
+ "C10": ("explicit-state breadth-first search over the real path mutators (transition = one real PathMut/PathBuf call; state = path text in a fixed reference context), lock-step list model, one-handle vs fresh-handle vs stand-alone differential",
+         "From every PATH(2) initial state in 8 (quick) / 14 (thorough) reference contexts of both families, every sequence of push/pop/clear/symbolic_push/symbolic_append/normalize up to depth 2 (quick) / 3 (thorough) over the core argument alphabet; each transition executed three ways (fresh handle, as the last call of the whole history through ONE handle, stand-alone PathBuf) and judged against the list model from the observed previous state; frame (scheme/authority/query/fragment), validity and handle view checked in every state; violating states are not expanded.",
+         "Trusted: the list model of model/pathops.rs with its stated leniencies (shield readings; symbolic '.'/'..' may or may not leave a trailing empty segment; an empty segment pushed symbolically onto a segment-less path may be skipped). Paths longer than 40 bytes are cut and counted.",
+         "DESIGN.md section 6, C10"),
  "C12": ("exhaustive input-space sweep (all paths up to a segment bound x all next/next_back interleavings) against a '/'-split list model",
          "Every path text over a structural segment alphabet up to 6 (quick) / 8 (thorough) segments, both families, with every path query and every interleaving of front/back iteration two steps past exhaustion, compared with a list model derived from the text. Exhaustive inside the bound; the scanners branch only on '/', so the bound covers every code path several times over.",
          "Trusted: the '/'-split list model (20 lines), the reference path DFA from /verif/spec deciding domain membership, rustc. Not covered: paths with more segments than the bound (except that iteration code has no length-dependent branch).",
